@@ -373,6 +373,13 @@ impl crate::validate::Validate for SimpleGlyph {
         if self.instructions.len() > u16::MAX as usize {
             ctx.report("instructions len overflows");
         }
+        // end points are u16 indices: with more points `cur as u16` in
+        // write_into would silently wrap and the glyph would read back as
+        // a different one
+        let n_points: usize = self.contours.iter().map(Contour::len).sum();
+        if n_points > u16::MAX as usize {
+            ctx.report("too many points");
+        }
     }
 }
 
@@ -817,6 +824,21 @@ mod tests {
         assert_eq!(points[1].x, 1);
         assert_eq!(points[1].y, 2);
         assert!(points[0].on_curve);
+    }
+
+    #[test]
+    fn too_many_points_is_an_error() {
+        let points = |n: usize| -> Vec<CurvePoint> {
+            (0..n).map(|i| CurvePoint::on_curve((i % 100) as i16, 0)).collect()
+        };
+        let mut glyph = SimpleGlyph {
+            bbox: Bbox::default(),
+            contours: vec![Contour::from(points(65535))],
+            instructions: vec![],
+        };
+        assert!(crate::dump_table(&glyph).is_ok());
+        glyph.contours.push(Contour::from(points(2)));
+        assert!(crate::dump_table(&glyph).is_err());
     }
 
     #[test]
